@@ -155,6 +155,10 @@ def rule_a(ctx, out):
 
 def rule_b(ctx, out):
     consts = {"constants.int_limit": 2 ** 256, "int_limit": 2 ** 256}
+    wordint.FUNCS.clear()
+    for fi in ctx.p.funcs_in(GO):
+        if fi.cls is None and fi.parent is None:
+            wordint.FUNCS[fi.name] = fi.node
     f = ctx.func(f"{GO}.evaluate_expression")
     res = wordint.analyse_returns(f.node, f.params[1:], consts, selector=f.params[0])
     branches = {}
@@ -164,6 +168,7 @@ def rule_b(ctx, out):
         branches.setdefault(sel, []).append((st, iv, issues, kind))
     for sel in sorted(branches):
         for st, iv, issues, kind in branches[sel]:
+            issues = [i for i in issues if i.kind != "wrap"]      # a binary word operation wraps by definition
             for i in issues:
                 out.bad(f"fold:{sel}:{i.kind}", f"constant folding of `{sel}`: {i.text}  [{short(st, 60)}]", where(f, st))
             if kind == "return":
@@ -200,10 +205,14 @@ def rule_b(ctx, out):
     g = ctx.func(f"{GO}.evaluate_expression_ter")
     for sel, st, env, iv, issues, kind in wordint.analyse_returns(g.node, g.params[1:], consts, selector=g.params[0]):
         for i in issues:
-            out.bad(f"fold3:{sel}:{i.kind}", f"ternary folding of `{sel}`: {i.text}", where(g, st))
+            if i.kind == "wrap":
+                out.bad(f"fold3:{sel}:intermediate-wrapped", f"ternary folding of `{sel}`: {i.text}; the intermediate result of ADDMOD/MULMOD is not "
+                        f"subject to the 2^256 modulo (Yellow Paper)", where(g, st))
+            else:
+                out.bad(f"fold3:{sel}:{i.kind}", f"ternary folding of `{sel}`: {i.text}", where(g, st))
         if kind == "return" and not issues and iv[0] >= 0 and iv[1] <= wordint.WMAX:
             out.ok({"fold3": sel, "expr": short(st.value, 60)})
-        elif kind == "return" and not issues:
+        elif kind == "return" and not [i for i in issues if i.kind != "wrap"] and not (iv[0] >= 0 and iv[1] <= wordint.WMAX):
             out.bad(f"fold3:{sel}:out-of-domain", f"ternary folding of `{sel}` can leave the word domain", where(g, st))
     ct = ctx.func(f"{GO}.compute_ternary")
     tl = [n for n in own_nodes(ct.node) if isinstance(n, ast.Compare) and is_name(n.left, "funct") and isinstance(n.ops[0], ast.In)
